@@ -227,8 +227,12 @@ impl<F: RedisClientFactory, C: ConnFactory<Pkt = RespPacket>> MetaManager<F, C> 
         let migration_manager = &self.migration_manager;
 
         {
+            #[cfg(feature = "verif")]
+            let _verif_scope = crate::common::verif::LockScope::new("manager.lock");
             let _guard = self.lock.lock();
 
+            #[cfg(feature = "verif")]
+            crate::common::verif::point("manager.epoch.load(set_meta)");
             if cluster_meta.get_epoch() <= self.epoch.load(Ordering::SeqCst)
                 && !cluster_meta.get_flags().force
             {
@@ -250,11 +254,15 @@ impl<F: RedisClientFactory, C: ConnFactory<Pkt = RespPacket>> MetaManager<F, C> 
                 self.blocking_map.clone(),
             );
 
+            #[cfg(feature = "verif")]
+            crate::common::verif::point("manager.meta_map.store");
             self.meta_map.store(Arc::new(MetaMap {
                 cluster_map,
                 migration_map,
             }));
             // Should go after the meta_map.store above
+            #[cfg(feature = "verif")]
+            crate::common::verif::point("manager.epoch.store");
             self.epoch.store(cluster_meta.get_epoch(), Ordering::SeqCst);
 
             self.migration_manager.run_tasks(new_tasks);
@@ -442,6 +450,8 @@ impl<F: RedisClientFactory, C: ConnFactory<Pkt = RespPacket>> MetaManager<F, C> 
     }
 
     pub fn get_epoch(&self) -> u64 {
+        #[cfg(feature = "verif")]
+        crate::common::verif::point("manager.epoch.load(get_epoch)");
         self.epoch.load(Ordering::SeqCst)
     }
 
